@@ -67,6 +67,9 @@ def a_coulomb(mp, a, P):
 
 
 AX = lambda p: [t for t in args_real(p, 'R', 7) if t[2] + t[3] > -40][::2] + [R(-30), R(-100), R(50)]
+# both half-planes and all sectors, moduli on both sides of the asymptotic switch-over (which moves with the precision)
+SCORER_C = lambda p: [(R(a), R(b)) for a, b in ((5, -30), (5, 30), (0, -40), (0, 40), (-10, -30), (-10, 30), (30, -5), (30, 5), (-4, -11), (-4, 11), (3, -60), (3, 60), (-50, -50), (-50, 50))]
+
 TABLE = [
     dict(fn='besselj', args=pairs(ORD, XB), budget=30),
     dict(fn='bessely', args=pairs(ORD, lambda p: [x for x in XB(p) if x != R(0)]), anchors=[('J Y\' - J\' Y = 2/(pi x)', a_wronsk_jy)], budget=30, maxprec=113),
@@ -84,8 +87,8 @@ TABLE = [
     dict(fn='bei', args=pairs(lambda p: [R(0), R(1), R(5, 2)], lambda p: [R(1, 2), R(5, 2), R(10), R(30)]), budget=30),
     dict(fn='ker', args=pairs(lambda p: [R(0), R(1), R(5, 2)], lambda p: [R(1, 2), R(5, 2), R(10), R(30)]), budget=30),
     dict(fn='kei', args=pairs(lambda p: [R(0), R(1), R(5, 2)], lambda p: [R(1, 2), R(5, 2), R(10), R(30)]), budget=30),
-    dict(fn='scorergi', args=one(lambda p: [R(1, 2), R(5, 2), R(10), R(-5, 2), R(-20), (R(1), R(1))]), budget=30),
-    dict(fn='scorerhi', args=one(lambda p: [R(1, 2), R(5, 2), R(-5, 2), R(-20), (R(1), R(1))]), budget=30),
+    dict(fn='scorergi', args=one(lambda p: [R(1, 2), R(5, 2), R(10), R(-5, 2), R(-20), (R(1), R(1))] + SCORER_C(p)), budget=30),
+    dict(fn='scorerhi', args=one(lambda p: [R(1, 2), R(5, 2), R(-5, 2), R(-20), (R(1), R(1))] + SCORER_C(p)), budget=30),
     dict(fn='coulombf', args=lambda p: [(l, e, z) for l in (R(0), R(2), R(1, 2)) for e in (R(1, 2), R(-1), R(0)) for z in (R(1, 2), R(7, 2), R(20))], anchors=[('F\' G - F G\' = 1', a_coulomb)], budget=40, ascending=True, maxprec=113),
     dict(fn='coulombg', args=lambda p: [(l, e, z) for l in (R(0), R(2), R(1, 2)) for e in (R(1, 2), R(-1), R(0)) for z in (R(1, 2), R(7, 2), R(20))], budget=40, ascending=True, maxprec=113),
     dict(fn='angerj', args=pairs(lambda p: [R(0), R(3, 2), R(2), R(-1, 4)], XS), budget=30),
